@@ -20,7 +20,7 @@ fn run(ctx: &mut Ctx, extra: &mut BTreeMap<String, String>) {
   let seed = ctx.seed;
   let small = ctx.pass != "release";
   let max_exh: u32 = if ctx.thorough { if small { 40 } else { 300 } } else if small { 16 } else { 40 };
-  let n_pts = if ctx.thorough { if small { 1500 } else { 40000 } } else if small { 300 } else { 3000 };
+  let n_pts = if ctx.thorough { if small { 1500 } else { 200000 } } else if small { 300 } else { 3000 };
   let n_rings = if ctx.thorough { if small { 100 } else { 2000 } } else if small { 30 } else { 200 };
   extra.insert("exhaustive_nside_up_to".into(), format!("{}", max_exh));
   let shards = 16usize;
